@@ -11,6 +11,7 @@ Streams (model `Wpull.Ftp` vs the real code in /repo):
             control connection must be exactly one line.
 """
 import asyncio
+import re
 import compat  # noqa: F401
 import fakenet
 from runner import enc, dec, Infra
@@ -260,6 +261,13 @@ def stream_reply(ctx, datas, cutsets):
         res = real_res
         if res[0] == 'ok':
             consumed = data[:len(data) - len(res[3])]
+            last = consumed[:-1].rsplit(b'\n', 1)[-1]      # the last LF-terminated line read
+            # (the code also takes a bare CR inside it as a line end: any of those pieces may carry the code)
+            if consumed.endswith(b'\n') and not any(re.match(rb'\d{3} ', x) for x in last.splitlines()):
+                # RFC 959: only a line that begins with the code followed by a space ends a reply
+                ctx.fail('reply-cut-short', 'Reply.parse', {'stream': 'reply', 'data': data, 'segs': segs},
+                         'reply %s ended at the line %r, which is not "ddd<space>text"; %d bytes of it left on the control stream'
+                         % (res[1], last[:40], len(res[3])))
             if not consumed.endswith(b'\n'):
                 ctx.fail('reply-not-whole', 'read_reply', {'stream': 'reply', 'data': data, 'segs': segs},
                          'a reply (code %s) was returned although the control stream ended inside its last line: %r' % (res[1], consumed[-30:]))
